@@ -341,6 +341,26 @@ theorem bayes_range (π fd ft : Rat) (hπ0 : 0 ≤ π) (hπ1 : π ≤ 1) (hd : 0
   rw [div_le_one h3]
   linarith
 
+/-- **C14.bayes_monotone** — the Bayes ratio moves the right way: for a probability `π` and non-negative
+densities with a positive denominator, more decoy density at a score never lowers its posterior error, and more
+target density never raises it (exact arithmetic). -/
+theorem bayes_monotone (π fd fd' ft ft' : Rat) (hπ0 : 0 ≤ π) (hπ1 : π ≤ 1) (hd : 0 ≤ fd) (hdd : fd ≤ fd')
+    (ht : 0 ≤ ft) (htt : ft ≤ ft') (hpos : 0 < π * fd + (1 - π) * ft) :
+    bayes π fd ft ≤ bayes π fd' ft ∧ bayes π fd ft' ≤ bayes π fd ft := by
+  unfold bayes
+  simp only [ofNat_rat, Nat.cast_one]
+  have hq : 0 ≤ 1 - π := by linarith
+  have h3 : 0 < ft * (1 - π) + fd * π := by nlinarith
+  have h4 : 0 < ft * (1 - π) + fd' * π := by nlinarith
+  have h5 : 0 < ft' * (1 - π) + fd * π := by nlinarith
+  have a1 : 0 ≤ fd * π := mul_nonneg hd hπ0
+  have a2 : 0 ≤ ft * (1 - π) := mul_nonneg ht hq
+  have a3 : fd * π ≤ fd' * π := mul_le_mul_of_nonneg_right hdd hπ0
+  have a4 : ft * (1 - π) ≤ ft' * (1 - π) := mul_le_mul_of_nonneg_right htt hq
+  constructor
+  · rw [div_le_div_iff₀ h3 h4]; nlinarith
+  · rw [div_le_div_iff₀ h5 h3]; nlinarith
+
 /-- the code's formula is the textbook one -/
 theorem bayes_eq_spec (π fd ft : Rat) : bayes π fd ft = specBayes π fd ft := by
   unfold bayes specBayes
